@@ -40,7 +40,7 @@ Exact(now, sec) == now + H(sec)
 
 New(cfg, now) ==
   [st |-> "CONNECTING", cbm |-> FALSE, fbm |-> FALSE, dbm |-> FALSE, clean |-> FALSE, why |-> "",
-   nclose |-> 0, peerClose |-> FALSE, rcode |-> 0, up |-> TRUE, drop |-> "",
+   nclose |-> 0, peerClose |-> FALSE, rcode |-> 0, rreason |-> 0, up |-> TRUE, drop |-> "",
    closes |-> <<>>, lateWrite |-> FALSE, dataAfterClose |-> FALSE,
    tOpen |-> IF cfg.openTO > 0 THEN Batched(now, cfg.openTO) ELSE NoT,
    tClose |-> NoT, tDrop |-> NoT, tPs |-> NoT, tPt |-> NoT, pend |-> FALSE, pings |-> 0, ndata |-> 0, npong |-> 0,
@@ -87,8 +87,9 @@ LocalSend(cfg, c, api) ==
   ELSE [c |-> c, exc |-> ""]                    \* streaming calls and sendPing are silently ignored when not OPEN
 
 \* kind: "valid" (legal code rc) | "empty" | "badcode" | "badutf8"
-PeerCloseOk(cfg, c0, now, rc) ==
-  LET c == [c0 EXCEPT !.rcode = rc, !.peerClose = TRUE] IN
+\* rr: which reason text the peer's close frame carried (0 = none; a token, the text itself is compared by the harness)
+PeerCloseOk(cfg, c0, now, rc, rr) ==
+  LET c == [c0 EXCEPT !.rcode = rc, !.rreason = rr, !.peerClose = TRUE] IN
   IF c0.st = "CLOSED" THEN c0                   \* nothing received after CLOSED is looked at
   ELSE IF c.st = "CLOSING"
   THEN LET d == [c EXCEPT !.tClose = NoT, !.clean = TRUE] IN
@@ -151,7 +152,8 @@ ConnLost(cfg, c) ==
                           !.st = "CLOSED"]
            why == IF ~a.clean /\ ~a.dbm /\ a.why = "" THEN "peer-dropped" ELSE a.why
        IN [a EXCEPT !.why = why,
-                    !.closes = Append(@, [clean |-> a.clean, code |-> IF a.clean THEN a.rcode ELSE 1006, why |-> IF a.clean THEN "" ELSE why])]
+                    !.closes = Append(@, [clean |-> a.clean, code |-> IF a.clean THEN a.rcode ELSE 1006, why |-> IF a.clean THEN "" ELSE why,
+                                           reason |-> IF a.clean THEN a.rreason ELSE 0])]      \* a clean close reports the peer's code and reason
 
 (***************************************************************************)
 (* Exhaustive model                                                        *)
@@ -169,7 +171,7 @@ NoneDue == Due(c, now) = {}
 AOpened == c.up /\ c.st = "CONNECTING" /\ NoneDue /\ Ev(Opened(cfg, c, now))
 ALocalClose == c.st # "CONNECTING" /\ NoneDue /\ Ev(LocalClose(cfg, c, now))
 ALocalSend(api) == c.st # "CONNECTING" /\ NoneDue /\ Ev(LocalSend(cfg, c, api).c)
-APeerClose(rc) == c.up /\ c.st \in {"OPEN", "CLOSING"} /\ ~c.peerClose /\ NoneDue /\ Ev(PeerCloseOk(cfg, c, now, rc))
+APeerClose(rc) == c.up /\ c.st \in {"OPEN", "CLOSING"} /\ ~c.peerClose /\ NoneDue /\ Ev(PeerCloseOk(cfg, c, now, rc, IF rc = 3000 THEN 1 ELSE 0))
 APeerData == c.up /\ c.st \in {"OPEN", "CLOSING"} /\ NoneDue /\ Ev(PeerData(cfg, c, now))
 APeerPing == c.up /\ c.st \in {"OPEN", "CLOSING"} /\ NoneDue /\ Ev(PeerPing(cfg, c))
 APeerPong(m) == c.up /\ c.st \in {"OPEN", "CLOSING"} /\ NoneDue /\ Ev(PeerPong(cfg, c, now, m))
@@ -196,7 +198,7 @@ NothingWrittenAfterOnClose == ~c.lateWrite
 AtMostOneCloseFrame == c.nclose <= 1
 NoDataAfterCloseFrame == ~c.dataAfterClose
 CleanOnlyIfBothCloseFrames ==
-  \A i \in 1..Len(c.closes) : c.closes[i].clean => (c.nclose = 1 /\ c.peerClose /\ c.closes[i].code = c.rcode)
+  \A i \in 1..Len(c.closes) : c.closes[i].clean => (c.nclose = 1 /\ c.peerClose /\ c.closes[i].code = c.rcode /\ c.closes[i].reason = c.rreason)
 UncleanIs1006 == \A i \in 1..Len(c.closes) : ~c.closes[i].clean => c.closes[i].code = 1006
 ClosedMeansDroppedOrLost == c.st = "CLOSED" => (c.dbm \/ ~c.up)
 \* once CLOSING, some timer guarantees progress unless the transport is already gone or the timeouts are disabled
